@@ -207,8 +207,43 @@ def shift_instances(tier):
 QUICK_SAMPLE = 24
 
 
+ENC = "poulpy-hal/src/layouts/encoding.rs"
+
+
+def encoding_instances(tier):
+    out = []
+    i = 0
+    for b in (2, 3, 7, 12, 17, 31, 32, 50, 52, 62):
+        ks = sorted({1, b - 1, b, b + 1, 2 * b - 1, 2 * b, 2 * b + 1, 3 * b, 5, 40} & set(range(1, 62)))
+        for k in ks:
+            size = -(-k // b)
+            if size > 3:
+                continue
+            S = size + 1
+            L = 2 * 2 * (S + 1)
+            for mode, mname in enumerate(["vec_i64", "coeff_i64", "coeff_vs_vec_i64"]):
+                i += 1
+                col, idx = i % 2, (i // 2) % 2
+                core = b == 17 and k in (16, 18, 40, 35) or (b == 3 and k == 5 and mode == 2)
+                out.append(Instance(
+                    crate="hk_hal", family=f"enc.{mname}", name=f"c08e_{mname}_b{b}_k{k}",
+                    call=f"crate::c08_enc::roundtrip_i64::<{b}, {k}, {S}, {L}, {mode}>({col}, {idx})",
+                    unwind=L + 6, params={"base2k": b, "k": k, "mode": mname, "col": col, "idx": idx},
+                    symbolic=["values |v|<2^61 (two coefficients)", "all prior buffer content"],
+                    functions=[f"{ENC}::encode_vec_i64/decode_vec_i64" if mode == 0 else f"{ENC}::encode_coeff_i64/decode_coeff_i64" + ("/decode_vec_i64" if mode == 2 else "")],
+                    timeout=900, core=core))
+            if k >= b or True:
+                out.append(Instance(
+                    crate="hk_hal", family="enc.vec_i128", name=f"c08e_vec_i128_b{b}_k{k}",
+                    call=f"crate::c08_enc::roundtrip_i128::<{b}, {k}, {S}, {L}>({i % 2})",
+                    unwind=L + 6, params={"base2k": b, "k": k, "mode": "vec_i128", "col": i % 2},
+                    symbolic=["values |v|<2^120 (two coefficients)", "all prior buffer content"],
+                    functions=[f"{ENC}::encode_vec_i128/decode_vec_i128"], timeout=900, core=(b == 17 and k == 35)))
+    return out
+
+
 def instances(tier, seed):
-    return kernel_instances(tier) + normalize_instances(tier) + shift_instances(tier)
+    return kernel_instances(tier) + normalize_instances(tier) + shift_instances(tier) + encoding_instances(tier)
 
 
 META = {
